@@ -3,21 +3,28 @@
 For every wrapper in the export list (plus `inverse_gaussian`, defined in the anchored
 module) a case is a JSON description of
 
-  parameters (scalar / batched / broadcasting), an alternative parameter set for
-  argument-changing updates, PRNG key integers, a uniform vector `u` that is mapped
-  deterministically into the support (the "Hypothesis-drawn value"), the invocation form
-  (positional, keyword, mixed, sample_shape) and one Mask variant.
+  a structure (parametrisation variant, shape class, event size, sample_shape), parameters
+  (scalar / batched / broadcasting), an alternative parameter set for argument-changing
+  updates, PRNG key integers, a uniform vector `u` that is mapped deterministically into the
+  support (the "Hypothesis-drawn value"), the invocation form of the eager part (positional,
+  keyword, mixed; python scalars / arrays / lists) and one Mask variant.
 
 Oracles
   * TFP itself (by the statement): the reference object is built *here*, by keyword, from
     the documented TFP parameter names (table `ROWS`), never through genjax code.
-  * scipy.stats / closed forms in float64 for most wrappers (catches a wrapper that maps
-    its parameters onto the wrong TFP constructor arguments or the wrong distribution).
+  * scipy.stats / closed forms in float64 for all wrappers but beta_quotient (catches a wrapper
+    that maps its parameters onto the wrong TFP constructor arguments or the wrong distribution).
   * differential: positional == keyword == mixed == closure invocation under the same key.
 
+Execution: everything that runs a sampler or branches on a traced Mask flag goes through ONE
+jitted program per structure (`sampling_program`): TFP's rejection samplers contain
+lax.while_loops that an eager call would re-compile every time (1-50 s per draw). The rest of
+the battery (assess, constrained importance, updates, eager Mask flags, all invocation forms)
+runs eagerly in the drawn form; wrappers whose log_prob itself contains while-loops (`JIT_ONLY`)
+run their whole battery jitted.
+
 Tolerances: library float32 vs reference: atol 2e-5*k*max(1,M) + rtol 2e-4 (k summed terms of
-magnitude <= M); scipy float64 cross-check: atol 1e-4*k*max(1,M) + rtol 1e-3; same-key
-re-invocations: values bit-equal, scores within 1e-6 relative.
+magnitude <= M); scipy float64 cross-check: 5x that; same-key re-invocations: values bit-equal.
 """
 
 from __future__ import annotations
